@@ -4,6 +4,9 @@ stdin : {"seeds":[...], "styles": k, "files":[bundled .eblif archives]}  or {"re
 read   : flat abstract design + style -> text of the independent writer (render_eblif.py) -> sdn.parse: one instance per
          .subckt/.gate/.names/.latch with the named model, data attached, model ports with direction, every formal=actual joined
          to the named net bit, .conn merging, black boxes leaf primitives, top; Inv + self-containment
+         (net names include names that merely contain a reserved word of the format - unconn, $true/$false/$undef, statement
+         keywords, latch type words - or look like an indexed bit; only the exact actual `unconn` is open: render_eblif.reserved_word_names
+         and the fixed corner 'reserved-words-inside-net-names')
 rt     : the netlist returned by the reader (generated text or bundled archive) -> sdn.compose(.eblif) -> sdn.parse: same instances
          (by name), types, data, model ports, nets as sets of pins; written file accepted
 """
